@@ -1,11 +1,17 @@
 import TempestVerif.Drv.Util
 import TempestVerif.Model.Weights
+import TempestVerif.Model.WeightsKeys
 /-
   line-protocol handlers of property C04
     logw.F beta=<f> norm=<0|1> h=<batch>;<batch>;…     batch = <beta_t>:<logz_t>:<l1>,<l2>,…   (`h=-` = empty history)
         →  `<logw list> <logz | none>`
     lae.F a=<f> b=<f>                                   →  `<logaddexp a b>`
     laered.F x=<list>                                   →  `<logaddexp.reduce x | none>`
+    c04k.F beta=<f> norm=<0|1> kb=<list> kz=<list> kl=<arr>/<arr>/…     the three per-key history lists (`kl=~` = no array; an
+        empty array is `-`)  →  `ok <logw list> <logz | none>` | `ValueError` | `IndexError` | `outside`
+    c04ops.F ops=<op>;<op>;…      a call sequence on a fresh manager (Model.WeightsKeys.runOps); ops:
+        sb:<f|N>  sz:<f|N>  sl:<list|N>  c  r  x  w:<beta>:<0|1>  u:<kb>|<kz>|<kl>
+        →  one token per observing op (`r`, `w`), joined by `;`:  `R:raised` | `R:nologw` | `R:outside` | `R:<list>` | `W:<c04k.F answer with _ for space>`
   floats are 16-hex-digit IEEE bit patterns.
 -/
 namespace Drv.C04
@@ -45,11 +51,73 @@ def laeredF (args : List (String × String)) : String :=
   | some x => showOpt (logaddexpReduce x)
   | none => "bad-op"
 
+/-! key-level model (second clause pass) -/
+open Model.WeightsKeys in
+def parseArrays? (s : String) : Option (List (List Float)) :=
+  if s == "~" then some [] else (s.splitOn "/").mapM (parseList? parseFloat?)
+
+open Model.WeightsKeys in
+def showOut (o : Out Float) (sep : String) : String :=
+  match o with
+  | .ok w z => s!"ok{sep}{showList showFloat w}{sep}{showOpt z}"
+  | .valueError => "ValueError"
+  | .indexError => "IndexError"
+  | .outside => "outside"
+
+open Model.WeightsKeys in
+def c04kF (args : List (String × String)) : String :=
+  match (getArg args "beta").bind parseFloat?, getArg args "norm", (getArg args "kb").bind (parseList? parseFloat?),
+        (getArg args "kz").bind (parseList? parseFloat?), (getArg args "kl").bind parseArrays? with
+  | some beta, some nrm, some kb, some kz, some kl =>
+    if nrm != "0" && nrm != "1" then "bad-op" else showOut (logwK ⟨kb, kz, kl⟩ beta (nrm == "1")) " "
+  | _, _, _, _, _ => "bad-op"
+
+def parseOptFloat? (s : String) : Option (Option Float) :=
+  if s == "N" then some none else (parseFloat? s).map some
+
+open Model.WeightsKeys in
+def parseOp? (s : String) : Option (Op Float) :=
+  match s.splitOn ":" with
+  | ["c"] => some .commit
+  | ["r"] => some .results
+  | ["x"] => some .roundtrip
+  | ["sb", v] => (parseOptFloat? v).map .setBeta
+  | ["sz", v] => (parseOptFloat? v).map .setLogz
+  | ["sl", v] => if v == "N" then some (.setLogl none) else (parseList? parseFloat? v).map fun l => .setLogl (some l)
+  | ["w", b, n] => if n != "0" && n != "1" then none else (parseFloat? b).map fun b => .weights b (n == "1")
+  | ["u", v] =>
+    match v.splitOn "|" with
+    | [kb, kz, kl] =>
+      match parseList? parseFloat? kb, parseList? parseFloat? kz, parseArrays? kl with
+      | some kb, some kz, some kl => some (.load ⟨kb, kz, kl⟩)
+      | _, _, _ => none
+    | _ => none
+  | _ => none
+
+open Model.WeightsKeys in
+def showObs (o : Obs Float) : String :=
+  match o with
+  | .res .raised => "R:raised"
+  | .res (.dict .nologw) => "R:nologw"
+  | .res (.dict .outside) => "R:outside"
+  | .res (.dict (.logw w)) => s!"R:{showList showFloat w}"
+  | .out r => s!"W:{showOut r "_"}"
+
+open Model.WeightsKeys in
+def c04opsF (args : List (String × String)) : String :=
+  match (getArg args "ops").bind fun s => (s.splitOn ";").mapM parseOp? with
+  | some ops =>
+    let r := runOps (SMK.init : SMK Float) ops
+    if r.2.isEmpty then "-" else ";".intercalate (r.2.map showObs)
+  | none => "bad-op"
+
 def handle (cmd : String) (args : List (String × String)) : Option String :=
   match cmd with
   | "logw.F" => some (logwF args)
   | "lae.F" => some (laeF args)
   | "laered.F" => some (laeredF args)
+  | "c04k.F" => some (c04kF args)
+  | "c04ops.F" => some (c04opsF args)
   | _ => none
 
 end Drv.C04
